@@ -22,7 +22,7 @@ func (vpRecorder) Call(i *Interpreter, args []interface{}) (interface{}, error) 
 	verifEvent(100, len(args))
 	return nil, nil
 }
-func (vpRecorder) Arity() int      { return -1 }
+func (vpRecorder) Arity() int     { return -1 }
 func (vpRecorder) String() string { return "<recorder>" }
 
 func tok(t token.TokenType, lexeme string, line int) token.Token {
